@@ -830,7 +830,12 @@ class Project(MessageHandler):
         total_days_needed: int = int((work_days_needed + gap_days) * 1.5) + 7
 
         # Calculate minimum required end date
-        min_end_date = self.attributes["start"] + timedelta(days=total_days_needed)
+        try:
+            min_end_date = self.attributes["start"] + timedelta(days=total_days_needed)
+        except OverflowError:
+            # The estimate lies beyond the calendar: keep the declared end, the
+            # oversized task is then reported as not fitting into the project.
+            return
 
         # Extend project end if needed
         if min_end_date > self.attributes["end"]:
